@@ -15,6 +15,10 @@ NA = {
 }
 
 CHECKS = {
+ "C06": dict(level="exploration", design="§5 C06",
+   text="Simulated host with a watchdog on the simulated clock (H3 instruction counter): generated programs and 13 unbounded loop/recursion templates on trampolined paths are stepped under seeded step and depth budgets; per step at most one VM instruction unless a native re-entered the VM (then a fixed bound), the budget stops the run, the interpreter stays usable. Resource faults are enumerated in worker processes: 10 allocation templates x 10 sizes up to 2^53 and 12 recursion call paths x 4 depths x 3 native stack sizes under a 4 GiB address-space cap; a dead worker is a violation unless the exact (template, parameter, stack) case is listed under a recorded finding.",
+   note="Trusted: harness, ulimit, process exit status. Three recorded findings are architectural (native re-entry: unbounded step, native-stack overflow; unchecked allocation sizes); their cases are listed one by one in known_findings.json. A worker that hits the 8 s CPU limit inside one step is reported as SLOW, never as a death.",
+   technique="deterministic simulation: host watchdog on a simulated clock + enumerated resource faults (stack size, address-space cap, sizes) in worker processes"),
  "C19": dict(level="exploration", design="§5 C19",
    text="Seeded search over programs (scripts and modules, with/without host-provided imports, host holes with value / error / deferred answers, planted uncaught errors) each run by five drivers with one fixed host schedule: eval, prepare+step, prepare+step with seeded host activity between steps, C API tsrun_run, C API tsrun_step; observable histories (non-Continue results with payloads, console, final value or first line of the error text, exports) must be identical. A synchronous module text is also run as entry program, as host-provided dependency and as InternalModule::source: same exported values and console.",
    note="Trusted: harness hosts (Rust and C side implement the same simplest answer policy). The C API has no provider or GC-threshold entry points, so programs avoid clock/randomness. Continue counts are not compared.",
